@@ -37,7 +37,7 @@ func init() {
 				Run:    ruleSharedState([]string{"bgzf"}),
 				Canary: func(cc *Ctx, r *Rep) { ruleSharedState([]string{"poolc"})(cc, r, "") }, WantFail: []string{"poolc.dirtyPool#shared-state", "poolc.seen#shared-state"}, WantPassMin: 3},
 			{Name: "SIZE-FIRST", What: "HasEOF takes the size from Size() or Stat() wherever the reader has one; Seek(0, current)+Len() is entered only after those type tests failed (bytes.Reader and strings.Reader have all three, and their offset may stand beyond the end) (added after sixteenth-round seed C08-q)", Floor: 2, Run: ruleSizeFirst},
-			{Name: "CUT-NO-CHANLEN", What: "no function of the writer reads len() or cap() of a channel: how many compressors are idle or how many blocks are queued depends on wc and the destination's speed, and nothing that decides where a block is cut may depend on it (added after sixteenth-round seed C08-r)", Floor: 5,
+			{Name: "CUT-NO-CHANLEN", What: "no function of the writer decides anything on len() or cap() of a channel (the value reaches no branch, no store, no call and no unexported function's result; an exported accessor that merely reports it is fine): how many compressors are idle or how many blocks are queued depends on wc and the destination's speed, and where a block is cut may not (added after sixteenth-round seed C08-r)", Floor: 5,
 				Run:    ruleNoChanLen([]string{"bgzf"}),
 				Canary: func(cc *Ctx, r *Rep) { ruleNoChanLen([]string{"poolc"})(cc, r, "") }, WantFail: []string{"poolc.chanLenBusy#chan-len"}, WantPassMin: 1},
 			{Name: "FLUSH-CUTS", What: "Writer.Flush answers nil without cutting a block only when the active block is empty: which writes start a member does not depend on the queue's length, hence not on wc or the destination's speed (added after ninth-round seed C08-i)", Floor: 1, Run: ruleFlushCuts},
